@@ -134,6 +134,16 @@ STRENGTHENED.update({
     "c20-12": "C20 missed it at first; loops whose turn joins values (`[., 1] | add`, `{a: .} | .a`, string interpolation) were added to the generator and loop forms",
     "c20-13": "C20 missed it at first (C16 caught it); new kind c20.command-files: inputs / input / --slurp / --stream / -R over 150 and over 600 files with a descriptor limit of 32",
 })
+STRENGTHENED.update({
+    # round 6 (cNN-14, cNN-15)
+    "c02-14": "C02 missed it at first; computed nulls (14 sources: the literal, the right side of //, a branch, a bound variable, a caught error ...) followed by 14 constant and computed keys, indices and slices in 10 path contexts, on locations that do not hold null",
+    "c03-15": "filed under C03 by its author; a typed nil Go map as an element is the subject of C08 (nil-container sweep), which catches it",
+    "c06-14": "C06 missed it at first (C19 and C05 caught its single-goroutine symptom); new kind c06.callback: one Code with six registered Go functions run by 8 goroutines with their own $g, the functions yield the processor between reading their arguments",
+    "c16-14": "C16 missed it at first; deletions below $ARGS.named / $ARGS.positional (del, delpaths, |= empty, with_entries) were added to the representation probes of c16.args",
+    "c17-14": "C17 missed it at first; --yaml-input from a standard input that is a regular file positioned behind a consumed prefix (as c17.json already had it)",
+    "c18-15": "C18 missed it at first; global variables are now sometimes given twice (WithVariables with a repeated name; --arg twice plus a named argument called ARGS)",
+    "c20-14": "C20 missed it at first; loop turns that catch an error (of a builtin, of error/1, of an index, of a failed conversion) in until / while / recurse / reduce / foreach / tail recursion",
+})
 NOT_A_VIOLATION = {
     "c15-6": "after a malformed document in a file that is not the last one, the unchanged command goes on with the next file, the changed one stops. C16 says of a malformed document 'every complete value before it, then one error, then end of input' and C15 speaks of runtime errors of the query only; neither property decides whether the files named later are still read, so the checks accept both (DESIGN 9.2, 'not defects')",
 }
